@@ -367,6 +367,17 @@ def rest(ctx):
     # the sized and the streaming form of a bit-level region hand the enclosing structure the same thing: the inner build result (shared with C07.R4)
     from . import C07 as _C07
     _C07.wrapper_build_result(ctx, "C10.R6")
+    # BitStruct is Bitwise(Struct(...)): the scope its bit fields evaluate their widths in (this.x, this._index, this._) is the nested context
+    # Struct / Sequence set up, with the same keys in parse, build and sizeof (shared with C07.R1)
+    from ..core import Ctx as _Ctx7
+    sub7 = _Ctx7("C07", ctx.tier, ctx.root, model=ctx.model)
+    sub7._summ = summariser(ctx)
+    _C07.run(sub7)
+    for e in sub7.errors:
+        ctx.error("shared C07 rules: " + e)
+    for o in sub7.obligations:
+        if o.rule == "C07.R1" and str(o.where).split(".")[0] in ("Struct", "Sequence"):
+            ctx.ob("C10.R6", o.where, o.ok, o.what, key=o.key, loc=o.loc, detail=o.detail)
     ctx.floor("C10.R6", 10)
     # which of the two region implementations runs is decided by subcon.sizeof(): the sizing methods are side-effect free and translate a
     # missing key (e.g. this._index in an element width) into SizeofError instead of inventing a value (shared with C05.R1)
